@@ -101,6 +101,7 @@ theorem all_done_of_zero {k : Conn} (hi : ConnInv k) (ho : k.srvClosed = false) 
   | running => simp [notDone, hst, HSt.isDone] at hnd
   | finished => simp [notDone, hst, HSt.isDone] at hnd
   | wrote ok => simp [notDone, hst, HSt.isDone] at hnd
+  | leaked => simp [notDone, hst, HSt.isDone] at hnd
 
 /-- A transition function of one connection record is `Good` when it preserves the invariant, only
 moves forward, preserves the safety clause, keeps a connection in the backlog there (`stay`; only
@@ -115,13 +116,13 @@ def Stay (f : Conn → Option Conn) : Prop :=
 
 /-! ### each transition function is good -/
 
-theorem good_cSend (r : Rid) : Good (cSend r) := by
+theorem good_cSend (nr : Bool) (r : Rid) : Good (cSend nr r) := by
   refine ⟨?_, ?_, ?_⟩ <;> intro k k' h <;> unfold cSend at h <;> split at h <;> simp at h <;> subst h
   · intro hi; exact ⟨hi.count, hi.openOk, hi.closedPc, hi.bufNil, hi.fresh, hi.regPc⟩
   · exact ⟨id, id, id, id⟩
   · intro _ hs; exact hs
 
-theorem stay_cSend (r : Rid) : Stay (cSend r) := by
+theorem stay_cSend (nr : Bool) (r : Rid) : Stay (cSend nr r) := by
   intro k k' h; unfold cSend at h; split at h <;> simp at h; subst h; exact id
 
 theorem good_cAccept : Good cAccept := by
@@ -342,15 +343,49 @@ theorem good_cStartP (i : Nat) : Good (cStartP i) :=
   good_cSetSt i .handed (fun _ => .running) rfl (fun _ => rfl) (fun _ _ => rfl)
 theorem good_cFin (i : Nat) : Good (cFin i) :=
   good_cSetSt i .running (fun _ => .finished) rfl (fun _ => rfl) (fun _ _ => rfl)
+/-- a guarded version of a good transition is good -/
+theorem good_of_imp {f g : Conn → Option Conn} (h : ∀ k k', f k = some k' → g k = some k') (hg : Good g) :
+    Good f :=
+  ⟨fun k k' hf => hg.inv k k' (h k k' hf), fun k k' hf => hg.mono k k' (h k k' hf),
+   fun k k' hf => hg.safe k k' (h k k' hf)⟩
+
+theorem stay_of_imp {f g : Conn → Option Conn} (h : ∀ k k', f k = some k' → g k = some k') (hg : Stay g) :
+    Stay f := fun k k' hf => hg k k' (h k k' hf)
+
+theorem cWrite_imp (i : Nat) : ∀ k k', cWrite i k = some k' →
+    (fun k => cSetSt i .finished (.wrote (!k.srvClosed)) k) k = some k' := by
+  intro k k' h
+  unfold cWrite at h
+  split at h <;> try contradiction
+  split at h <;> try contradiction
+  exact h
+
+theorem cSkip_imp (d : Bool) (i : Nat) : ∀ k k', cSkip d i k = some k' →
+    (fun k => cSetSt i .finished (if d then .wrote true else .leaked) k) k = some k' := by
+  intro k k' h
+  unfold cSkip at h
+  split at h <;> try contradiction
+  split at h <;> try contradiction
+  exact h
+
 theorem good_cWrite (i : Nat) : Good (cWrite i) :=
-  good_cSetSt i .finished (fun k => .wrote (!k.srvClosed)) rfl (fun _ => rfl)
-    (fun k h => by simp [h, HSt.ok])
+  good_of_imp (cWrite_imp i)
+    (good_cSetSt i .finished (fun k => .wrote (!k.srvClosed)) rfl (fun _ => rfl)
+      (fun k h => by simp [h, HSt.ok]))
+
+theorem good_cSkip (d : Bool) (i : Nat) : Good (cSkip d i) :=
+  good_of_imp (cSkip_imp d i)
+    (good_cSetSt i .finished (fun _ => if d then .wrote true else .leaked) rfl
+      (fun _ => by cases d <;> rfl) (fun _ _ => by cases d <;> rfl))
 
 theorem stay_cStart (i : Nat) : Stay (cStart i) := stay_cSetSt i .queued (fun _ => .running)
 theorem stay_cHand (i : Nat) : Stay (cHand i) := stay_cSetSt i .queued (fun _ => .handed)
 theorem stay_cStartP (i : Nat) : Stay (cStartP i) := stay_cSetSt i .handed (fun _ => .running)
 theorem stay_cFin (i : Nat) : Stay (cFin i) := stay_cSetSt i .running (fun _ => .finished)
-theorem stay_cWrite (i : Nat) : Stay (cWrite i) := stay_cSetSt i .finished (fun k => .wrote (!k.srvClosed))
+theorem stay_cWrite (i : Nat) : Stay (cWrite i) :=
+  stay_of_imp (cWrite_imp i) (stay_cSetSt i .finished (fun k => .wrote (!k.srvClosed)))
+theorem stay_cSkip (d : Bool) (i : Nat) : Stay (cSkip d i) :=
+  stay_of_imp (cSkip_imp d i) (stay_cSetSt i .finished (fun _ => if d then .wrote true else .leaked))
 
 theorem good_cDec (i : Nat) : Good (cDec i) := by
   refine ⟨?_, ?_, ?_⟩ <;> intro k k' h <;> unfold cDec at h <;> split at h <;> try contradiction
